@@ -470,7 +470,7 @@ class Moment:
 
         operations = list(self.operations)
         for q in set(qubits) - self.qubits:
-            operations.append(ops.I(q))
+            operations.append(ops.IdentityGate(qid_shape=(q.dimension,)).on(q))
         return Moment(*operations)
 
     @_compat.cached_method()
